@@ -48,9 +48,13 @@ namespace ip {
 		std::vector<asio::ip::address> result;
 		boost::system::error_code ec;
 
+		// lookups are served one at a time: this one starts when the last queued
+		// lookup completes (back(), not front()), and not before it is issued (an
+		// entry may be overdue while an address literal ahead of it holds the timer)
+		const chrono::high_resolution_clock::time_point now = chrono::high_resolution_clock::now();
 		const chrono::high_resolution_clock::time_point start_time =
-			m_queue.empty() ? chrono::high_resolution_clock::now() :
-			m_queue.front().completion_time;
+			(m_queue.empty() || m_queue.back().completion_time < now)
+			? now : m_queue.back().completion_time;
 
 		assert(!m_ios->get_ips().empty() && "internal io service objects can only "
 			"be used for timers");
